@@ -592,7 +592,7 @@ def inplace_sites(ctx, world, scope="all"):
                             sites.append((x, kw.value))
                     if isinstance(x.func, ast.Attribute) and x.func.attr == "at" and x.args:
                         sites.append((x, x.args[0]))
-                    elif isinstance(x.func, ast.Attribute) and x.func.attr in ("sort", "fill", "resize", "itemset", "put", "setflags") and isinstance(x.func.value, ast.Name):
+                    elif isinstance(x.func, ast.Attribute) and x.func.attr in ("sort", "fill", "resize", "itemset", "put", "setflags"):
                         sites.append((x, x.func.value))
             for site, tgt in sites:
                 root = tgt
